@@ -24,9 +24,6 @@ instance {α β : Type} [Dump α] [Dump β] : Dump (α × β) := ⟨fun p => dum
 instance {α : Type} [Dump α] : Dump (List α) :=
   ⟨fun l => "[" ++ ";".intercalate (l.map dump) ++ "]"⟩
 
-/-- K of the allocation bound checked on both sides: K · MaxMessagePayload -/
-def allocK : Nat := 12
-
 def allocTok (n : Nat) : String :=
   if n ≤ allocK * MaxMessagePayload then " a=ok" else s!" a=EXCESS({n})"
 
@@ -90,9 +87,7 @@ def runMsg {α : Type} [Dump α] (kind : String) (net : Nat) (b : Bytes) (c : Co
     (_ : α → String) : String :=
   let cmd := kind.toUTF8.toList
   -- payload allocation + what the payload decoder allocates
-  let al := frame.alloc b + match frame.dec b with
-    | .ok ((_, _, pl), _) => c.alloc pl
-    | .error _ => 0
+  let al := readMessageAlloc c b
   match readMessage c mpl net cmd b with
   | .error _ => "err" ++ allocTok al
   | .ok (a, r) =>
